@@ -197,7 +197,9 @@ impl Evaluator {
                 .any(|segment| match segment {
                     InterpolationSegment::String(_) => false,
                     InterpolationSegment::Value(value) => {
+                        // a value that is not known can have a `__tostring` metamethod
                         self.has_side_effects(value.get_expression())
+                            || self.maybe_metatable(&self.evaluate(value.get_expression()))
                     }
                 }),
             Expression::TypeCast(type_cast) => self.has_side_effects(type_cast.get_expression()),
